@@ -306,6 +306,7 @@ package setec
 //@   ensures [C16 fapply.gate] (!old(has(s.active.m, fullName)) && !s.allowLookup) ==> (err != nil && net == old(net) && sameEntries(s))
 //@   ensures [C20 fapply.known-no-request] old(has(s.active.m, fullName)) ==> net == old(net)
 //@   at call ValueOf: assert [C20 fapply.bytes-private-copy] boxfresh(arg_v)
+//@   at call SetBytes: assert [C20 fapply.setbytes-private-copy] fresh(arg_x)
 //@ func (*Fields).Apply(f, ctx, s) (err)
 //@   requires f != nil && storeInv(s) && !s.active.Mutex && ctx != nil && s.client != nil
 //@   ensures [C12,C20 apply.inv] storeInv(s) && !s.active.Mutex && handlesKept(s) && valuesKept(s)
